@@ -106,7 +106,7 @@ def rule_k1(ctx) -> None:
                 del cfg_attrs[k]
     if dropped:
         ctx.note("not required in the key: %s" % dropped)
-    ctx.require(len(cfg_attrs) >= 3, "fewer than 3 configuration attributes are read in the bypassed region: %s" % sorted(read))
+    ctx.require(len(cfg_attrs) >= 2, "fewer than 2 configuration attributes are read in the bypassed region: %s" % sorted(read))
     ctx.note("configuration read in the bypassed region: %s; excluded by rule: %s" % (sorted(cfg_attrs), {k: v for k, v in EXCLUDED.items() if k in read}))
     # what flows into the hash
     hashed: Set[str] = set()
@@ -241,6 +241,18 @@ def rule_k2(ctx) -> None:
                         if covers and not reraises and miss:
                             tolerant = True
                 cur = getattr(cur, "_parent", None)
+    # a tolerant read only protects against torn writes when the entry is ONE
+    # JSON document (no proper prefix of a document decodes); line- or
+    # record-wise formats have valid prefixes
+    dumps = [c for c in calls(write) if unparse(c.func) in ("json.dump",)]
+    raw_writes = [c for c in calls(write) if isinstance(c.func, ast.Attribute) and c.func.attr in ("write", "writelines")]
+    single_doc_write = len(dumps) == 1 and not raw_writes and not any(isinstance(x, (ast.For, ast.While)) for x in own_nodes(write.node))
+    loads = [c for c in calls(load) if unparse(c.func) in ("json.load",)]
+    line_reads = [c for c in calls(load) if isinstance(c.func, ast.Attribute) and c.func.attr in ("readline", "readlines")] + [x for x in own_nodes(load.node) if isinstance(x, (ast.For, ast.comprehension))]
+    single_doc_read = len(loads) == 1 and not line_reads
+    if tolerant and not (single_doc_write and single_doc_read):
+        ctx.note("load_cache has a tolerant handler but the entry is not a single JSON document (json.dump calls: %d, raw writes: %d, line-wise reads: %d): truncated prefixes can decode" % (len(dumps), len(raw_writes), len(line_reads)))
+        tolerant = False
     # caller treats {} as a miss: result is None -> pipeline
     tc = prog.func(BAL + ".__try_cache")
     rb = prog.func(BAL + ".__rebalance_batch")
